@@ -2,6 +2,7 @@ import SphericalVerif.Lemmas.Frame
 import SphericalVerif.Gen.DiffKern
 import SphericalVerif.Gen.AlgKern
 import SphericalVerif.Gen.MulKern
+import SphericalVerif.Props.GenW3j
 /-! Footprint2 — **what the loops of `Modes` and the product helper write, from their source** (continuation of `Props/Footprint`).
 
     For every generated loop of spherical/modes/derivatives.py, spherical/utilities/operators.py and spherical/modes/algebra.py, every size,
@@ -64,5 +65,12 @@ theorem mul_only (f g : Int → Cx α) (FG sC mC : Nat) (a1 a2 a3 a4 a5 a6 a7 a8
   have hM : ∀ a b c d (x : φ), Only α [FG, sC, mC] st x → Only α [FG, sC, mC] st (w3jcalc mC a b c d x) := fun a b c d x hx =>
     Only.trans _ _ _ _ hx (Only.mono _ _ _ _ (by simp) (hfoot mC a b c d x))
   repeat (first | frame_step | (apply hS) | (apply hM))
+
+/-- … and with the GENERATED `Wigner3jCalculator.calculate` as `calculate` the hypothesis is a theorem (`GenW3j.gen_w3j_only`): the product
+    helper and everything it calls, from the source, write the output row and the two calculators' arrays only -/
+theorem mul_only_generated (f g : Int → Cx α) (FG sC mC : Nat) (a1 a2 a3 a4 a5 a6 a7 a8 a9 : Int) (pi_ : α) (size : Int) (st : φ) :
+    Only α [FG, sC, mC] st (Gen.u_multiplication_helper (α := α) f a1 a2 a3 g a4 a5 a6 FG a7 a8 a9 sC mC pi_
+      (fun id j2 j3 m2 m3 x => Gen.Wigner3jCalculator_calculate (α := α) id size j2 j3 m2 m3 x) st) :=
+  mul_only f g FG sC mC a1 a2 a3 a4 a5 a6 a7 a8 a9 pi_ _ (fun id a b c d x => GenW3j.gen_w3j_only id size a b c d x) st
 end
 end Footprint2
